@@ -2,6 +2,7 @@
    decoder: the toy two-byte charset of CharsetPinned.v decoded chunk by chunk, carrying a pending lead
    byte across chunk boundaries and flushing "?" for a truncated character at end of input, delivers
    for EVERY split exactly what the one-shot decoder makes of the whole input. *)
+From Coq Require Import Lia.
 From ReqV Require Import Lib.Bytes Lib.BytesFacts Model.Charset Proofs.CharsetProofs Proofs.CharsetPinned.
 
 (* one Transform call: [pend] = a lead byte of the previous chunk is waiting for its trail byte *)
@@ -78,3 +79,60 @@ Example toy_stream_carries_state :
   toy_stream false [bs "<m>" ++ [xe4]; [xb8; "z"%byte]] = bs "<m>Wz" /\
   toy_stream false [bs "<m>" ++ [xe4]] = bs "<m>?".
 Proof. vm_compute. repeat split. Qed.
+
+(* the hypothesis of C15_net_error_prefix is met by the toy decoder: what it delivers before a source
+   error (complete characters only) is a prefix of the transcoding of every completion of its input *)
+Lemma toy_dec_lo a s : is_hi a = false -> toy_dec (a :: s) = a :: toy_dec s.
+Proof.
+  intros H.
+  change (toy_dec (a :: s)) with
+    (if is_hi a then match s with _ :: r' => "W"%byte :: toy_dec r' | [] => ["?"%byte] end else a :: toy_dec s).
+  rewrite H. reflexivity.
+Qed.
+
+Lemma toy_dec_hi a t s : is_hi a = true -> toy_dec (a :: t :: s) = "W"%byte :: toy_dec s.
+Proof.
+  intros H.
+  change (toy_dec (a :: t :: s)) with
+    (if is_hi a then "W"%byte :: toy_dec s else a :: toy_dec (t :: s)).
+  rewrite H. reflexivity.
+Qed.
+
+Lemma toy_part_lo a s : is_hi a = false -> toy_part (a :: s) = a :: toy_part s.
+Proof.
+  intros H.
+  change (toy_part (a :: s)) with
+    (if is_hi a then match s with _ :: r' => "W"%byte :: toy_part r' | [] => [] end else a :: toy_part s).
+  rewrite H. reflexivity.
+Qed.
+
+Lemma toy_part_hi a t s : is_hi a = true -> toy_part (a :: t :: s) = "W"%byte :: toy_part s.
+Proof.
+  intros H.
+  change (toy_part (a :: t :: s)) with
+    (if is_hi a then "W"%byte :: toy_part s else a :: toy_part (t :: s)).
+  rewrite H. reflexivity.
+Qed.
+
+Lemma toy_part_prefix_aux n : forall s rest,
+  length s <= n -> exists tail, toy_dec (s ++ rest) = toy_part s ++ tail.
+Proof.
+  induction n as [|n IH]; intros s rest L.
+  - destruct s; [|cbn in L; lia]. exists (toy_dec rest). reflexivity.
+  - destruct s as [|a [|t r]].
+    + exists (toy_dec rest). reflexivity.
+    + cbn [app]. destruct (is_hi a) eqn:H.
+      * exists (toy_dec (a :: rest)).
+        change (toy_part [a]) with (if is_hi a then [] else [a]). rewrite H. reflexivity.
+      * exists (toy_dec rest). rewrite toy_dec_lo, toy_part_lo by exact H. reflexivity.
+    + cbn [app]. cbn [length] in L. destruct (is_hi a) eqn:H.
+      * destruct (IH r rest) as [tail Ht]; [lia|].
+        exists tail. rewrite toy_dec_hi, toy_part_hi by exact H. rewrite Ht. reflexivity.
+      * destruct (IH (t :: r) rest) as [tail Ht]; [cbn [length]; lia|].
+        exists tail. rewrite toy_dec_lo, toy_part_lo by exact H. cbn [app] in Ht. rewrite Ht. reflexivity.
+Qed.
+
+Theorem toy_partial_ok :
+  forall (e : unit) cs rest, exists tail,
+    toy_dec_all e (concat cs ++ rest) = toy_dec_partial e cs ++ tail.
+Proof. intros e cs rest. unfold toy_dec_all, toy_dec_partial. eapply toy_part_prefix_aux. apply le_n. Qed.
